@@ -15,7 +15,9 @@ CHECKS = {
              "address) with the architectural state restored | on a fresh core created last in the process; programs (96 quick / 2500 thorough, "
              "looping, 7-40 steps) run N+M steps in one go | N steps, registers+memory carried into a NEW core, M steps | twice on fresh cores with "
              "every step compared | (Python) the snapshot-driven CPUStepper with a new CPU per step against one Emulator. The first differing "
-             "architectural component is named. The fresh Python runs are also judged by JudgeSem (figure in the evidence; disagreements are C04's).",
+             "architectural component is named. The fresh Python runs are also judged by JudgeSem (figure in the evidence; disagreements are C04's). "
+             "Static complement: the lifted IL of every distinct instruction shape is exported as a control-flow graph and TLC (TempDefUse) explores "
+             "every path carrying the set of TEMP registers written so far - DefBeforeUse must hold at every node.",
         design_ref="DESIGN.md section 4 (C07)",
         note="Trusted: exec_harness, vh exec module (clear_mem / hidden), binja_test_mocks evaluator, TLC. Restoring the architectural state on a used "
              "core means: eight registers, whole memory image, running power state.",
@@ -169,7 +171,8 @@ CHECKS = {
              "assembled bytes = CanonEnc of the original), SameText, SameLift (IL digest), SecondRoundAssembles, Stable. Every accepted structural "
              "encoding (prefix x opcode x mode byte x operand palette incl. 00/FF/7F/80 displacements; 42750 quick, all 15 prefixes thorough; "
              "undocumented but accepted forms included) is rendered, turned into source text (TInt/TAddr tokens as 0x literals, named internal "
-             "registers by name), assembled by Assembler().assemble, disassembled and assembled again; TLC judges every record.",
+             "registers by name), assembled by Assembler().assemble, disassembled and assembled again; TLC judges every record. On the model, "
+             "TLC checks over the structural space (MCSemSpace) that the canonical reading is total and depends on the instruction's own bytes only.",
         design_ref="DESIGN.md section 4 (C09)",
         note="Trusted: the text convention of checks/c09.text_of, decode_harness.il_digest, TLC. Eight open known findings, all disagreements between "
              "sc_asm's and the renderer's conventions for internal-memory operands, several pinned by test_asm; keys carry structural tags (prefix-dropped, "
@@ -244,7 +247,9 @@ CHECKS = {
              "change, under the documented addressing rules, mnemonic widths and I-counted ranges. TLC (JudgeDenote) compares that denotation with "
              "the accesses recorded through the Memory callbacks while Emulator.execute_instruction runs, for every documented structural encoding "
              "(4 prefixes + none quick, all 15 thorough) x seeded states with BP/PX/PY distinct and non-zero, boundary pointers, I in 1..8: "
-             "denoted bytes must be accessed, nothing else may be (outside the instruction's own bytes), no undenoted register may change.",
+             "denoted bytes must be accessed, nothing else may be (outside the instruction's own bytes), no undenoted register may change. "
+             "On the model, TLC checks over the complete structural space of encodings (MCSemSpace: 89856 states quick, all prefixes x all second "
+             "bytes thorough) that the bytes SC62015Sem.Exec writes are exactly the ones Denote assigns to the text (DenoteCoversExec).",
         design_ref="DESIGN.md section 4 (C03)",
         note="Trusted: exec_harness recording memory, text_ast.py, binja_test_mocks evaluator, TLC. Register reads are not observable; register writes "
              "are seen as value changes. Five open known findings (same root causes as C04's) keyed by opcode + TLC-computed alternative-reading tag.",
@@ -260,7 +265,9 @@ CHECKS = {
              "registers, next PC, flag values, flags the table marks '-' preserved, written memory, and the frame condition (every other "
              "register and every location the implementation wrote). TLC (JudgeAlu) judges complete (a, b, carry) tables of the 8-bit "
              "operations in every operand form: 70 forms, all 2^17 inputs each in the thorough tier; quick: 3 forms complete + a stratified "
-             "sample of 18 a-values x all b x carry for the others.",
+             "sample of 18 a-values x all b x carry for the others. On the model, TLC checks 17 algebraic laws of the semantics itself "
+             "(MCSemLaws: EX twice = identity, PUSH/POP, ADCL/SBCL = multi-precision add/sub, DADL/DSBL = decimal add/sub, ...) over a "
+             "product palette of 7200 (thorough 31680) states.",
         design_ref="DESIGN.md section 4 (C04)",
         note="Trusted: harness/py/exec_harness.py (sparse recording memory), binja_test_mocks LLIL evaluator, TLC, the README tables as transcribed. "
              "Rows of the README that are only descriptive are transcribed from the implementation and marked (T) in the spec. Eight open known "
